@@ -196,13 +196,18 @@ pub struct RuleOpts {
     pub actions: bool,
     /// bias paths / hosts to marker templates (tree-heavy histories)
     pub dynamic_bias: bool,
-    /// allow sampling / reset / stop
+    /// allow reset / stop
     pub flags: bool,
+    /// allow sampling (deterministic points only)
+    pub sampling: bool,
+    /// ranks are drawn from 0..=max_rank
+    pub max_rank: u16,
 }
 
 impl RuleOpts {
-    pub const MATCH_ONLY: RuleOpts = RuleOpts { actions: false, dynamic_bias: false, flags: false };
-    pub const FULL: RuleOpts = RuleOpts { actions: true, dynamic_bias: false, flags: true };
+    pub const MATCH_ONLY: RuleOpts = RuleOpts { actions: false, dynamic_bias: false, flags: false, sampling: false, max_rank: 3 };
+    pub const FULL: RuleOpts = RuleOpts { actions: true, dynamic_bias: false, flags: true, sampling: true, max_rank: 3 };
+    pub const TIES: RuleOpts = RuleOpts { actions: true, dynamic_bias: false, flags: true, sampling: false, max_rank: 1 };
 }
 
 fn opt_weighted<T: Clone + std::fmt::Debug + 'static>(none_w: u32, some: Vec<(u32, T)>) -> BoxedStrategy<Option<T>> {
@@ -328,7 +333,7 @@ pub const HF_ACTIONS: &[&str] = &["add", "remove", "replace", "override", "defau
 
 pub fn action_part_strategy(opts: RuleOpts) -> BoxedStrategy<ActionPart> {
     if !opts.actions {
-        return (0u16..4).prop_map(|rank| ActionPart { rank, ..Default::default() }).boxed();
+        return (0u16..=opts.max_rank).prop_map(|rank| ActionPart { rank, ..Default::default() }).boxed();
     }
     let status = pickw(vec![(3, None), (1, Some(0u16)), (2, Some(301)), (2, Some(302)), (1, Some(404)), (1, Some(410)), (1, Some(308))]);
     let codes = pickw(vec![
@@ -343,7 +348,7 @@ pub fn action_part_strategy(opts: RuleOpts) -> BoxedStrategy<ActionPart> {
     ]);
     let flags = opts.flags;
     let tri = move |w: u32| pickw(vec![(10, None), (2, Some(false)), (if flags { w } else { 0 }, Some(true))]);
-    let sampling = if flags { pickw(vec![(12, None), (1, Some(100u32)), (1, Some(0)), (1, Some(1000))]) } else { Just(None).boxed() };
+    let sampling = if opts.sampling { pickw(vec![(12, None), (1, Some(100u32)), (1, Some(0)), (1, Some(1000))]) } else { Just(None).boxed() };
     (
         status,
         codes,
@@ -354,7 +359,7 @@ pub fn action_part_strategy(opts: RuleOpts) -> BoxedStrategy<ActionPart> {
         tri(2),
         tri(2),
         sampling,
-        0u16..4,
+        0u16..=opts.max_rank,
     )
         .prop_map(|(status_code, (response_status_codes, exclude_response_status_codes), target_kind, header_filters, body_filter, log_override, reset, stop, sampling, rank)| ActionPart {
             status_code,
